@@ -5,6 +5,7 @@ package spec
 import (
 	"bytes"
 	"encoding/json"
+	"fmt"
 	"net/netip"
 	"strconv"
 	"strings"
@@ -682,6 +683,20 @@ func c17PadTo(sigil, local, server string, n int) string {
 var c17UserEdits = []string{
 	"no-sigil", "wrong-sigil", "no-colon", "empty-local", "upper-local", "plus-local", "nonascii-local", "punct-local",
 	"colon-local", "len-254", "len-255", "len-256", "len-300", "server-edit", "byte-edit", "empty-domain",
+	"wide-255", "wide-256", "wide-257", "wide-300",
+}
+
+// c17PadWide pads the localpart with multi-byte characters up to n BYTES: far fewer than n code points.
+func c17PadWide(sigil, local, server, wide string, n int) string {
+	need := n - (1 + len(local) + 1 + len(server))
+	for need >= len(wide) {
+		local += wide
+		need -= len(wide)
+	}
+	if need > 0 {
+		local += strings.Repeat("a", need)
+	}
+	return sigil + local + ":" + server
 }
 
 func c17GenUserCase(t *rapid.T) c17IDCase {
@@ -730,6 +745,10 @@ func c17GenUserCase(t *rapid.T) c17IDCase {
 	case "len-254", "len-255", "len-256", "len-300":
 		n, _ := strconv.Atoi(edit[4:])
 		s = c17PadTo("@", local, server, n)
+	case "wide-255", "wide-256", "wide-257", "wide-300":
+		// the limit is in bytes; these hold at most half as many code points
+		n, _ := strconv.Atoi(edit[5:])
+		s = c17PadWide("@", local, server, rapid.SampledFrom([]string{"é", "é", "€", "😀"}).Draw(t, "wide"), n)
 	case "server-edit":
 		bad, e := c17GenServerNeg(t)
 		s, c.Gen = "@"+local+":"+bad, "edit/server/"+e
@@ -935,6 +954,27 @@ func c17CheckB64Value(ctx *vfCtx, raw []byte) {
 		}
 		if jerr != nil || !bytes.Equal(j, raw) {
 			ctx.Fail("C17/base64/json-decode-"+in.name, "json.Unmarshal(%q) = %x, %v; expected %x", `"`+in.text+`"`, []byte(j), jerr, raw)
+		}
+		// the same JSON string in other spellings: "\/" for the solidus of the standard alphabet
+		// (what several encoders emit by default) and a \uXXXX escape for one character
+		var spellings []string
+		if strings.Contains(in.text, "/") {
+			spellings = append(spellings, strings.ReplaceAll(in.text, "/", `\/`))
+		}
+		if len(in.text) > 0 {
+			k := len(raw) % len(in.text)
+			spellings = append(spellings, in.text[:k]+fmt.Sprintf(`\u%04x`, in.text[k])+in.text[k+1:])
+		}
+		for _, sp := range spellings {
+			ctx.Class("value/json-string-with-escapes")
+			var je Base64Bytes
+			if vfCatch(ctx, "C17/base64", func() { jerr = json.Unmarshal([]byte(`"`+sp+`"`), &je) }) {
+				return
+			}
+			if jerr != nil || !bytes.Equal(je, raw) {
+				ctx.Fail("C17/base64/json-decode-escaped-"+in.name, "json.Unmarshal(%q) = %x, %v; the JSON string spells %q, expected %x", `"`+sp+`"`, []byte(je), jerr, in.text, raw)
+				break
+			}
 		}
 	}
 	// a destination that already holds a value (Scan / UnmarshalJSON loops decode into one variable):
